@@ -171,4 +171,297 @@ Proof.
       * eapply Irl; [| | | |exact E]; [exact X|exact Hne|now apply SP, SP|now apply SD, SD].
 Qed.
 
+(* ---------- sortedness and marker discipline in regime B ---------- *)
+
+Lemma oof_back_steps s s' : steps s s' -> oof s' = false -> oof s = false.
+Proof. intros St O. destruct (oof s) eqn:Os; [|reflexivity]. rewrite <- O. symmetry. eapply steps_oof; eassumption. Qed.
+
+Lemma ob_all f :
+  (forall s i k sc pc s' r, run_step tk f s i k sc pc = (s', r) -> oof s' = false -> oof s = false) /\
+  (forall s i s' r, gen_send tk f s i = (s', r) -> oof s' = false -> oof s = false) /\
+  (forall s i, oof (gen_close tk f s i) = false -> oof s = false) /\
+  (forall s i, oof (close_own tk f s i) = false -> oof s = false) /\
+  (forall s ds, oof (close_list tk f s ds) = false -> oof s = false) /\
+  (forall s c es s' r, run_effects tk f s c es = (s', r) -> oof s' = false -> oof s = false) /\
+  (forall s sid s' r, recur_pass tk f s sid = (s', r) -> oof s' = false -> oof s = false) /\
+  (forall s sid s' r, recur_loop tk f s sid = (s', r) -> oof s' = false -> oof s = false).
+Proof.
+  destruct (frame_all tk f) as (Fst & Frs & Fsd & Fcl & Fco & Fli & Feo & Fel & Fef & Frp & Frl).
+  repeat split; intros; eapply oof_back_steps; try eassumption.
+  - eapply Frs; [apply st_refl|eassumption].
+  - eapply Fsd; [apply st_refl|eassumption].
+  - apply Fcl, st_refl.
+  - apply Fco, st_refl.
+  - apply Fli, st_refl.
+  - eapply Fef; [apply st_refl|eassumption].
+  - eapply Frp; [apply st_refl|eassumption].
+  - eapply Frl; [apply st_refl|eassumption].
+Qed.
+
+Variable ord : id -> nat.
+
+Definition SrtF s : Prop := forall x, srt ord (canon (dq s x)).
+Definition ML s : Prop := forall x, x <> 0%N -> ~ mf (dq s x) -> running s x /\ isnest (defs s) x = true.
+Definition GoodB s : Prop := SrtF s /\ ML s.
+Definition form2 (ds : list (deed T)) : Prop := exists u r, ds = u ++ DMark :: r /\ mf u /\ mf r.
+Definition own' s (sid : id) : Prop := prot s sid /\ (sid <> 0%N -> isnest (defs s) sid = true).
+
+Lemma good_same s s' : (forall x, dq s' x = dq s x) -> (forall x, get_gen s' x = get_gen s x) -> defs s' = defs s ->
+  GoodB s -> GoodB s'.
+Proof.
+  intros Hq Hg Hd [S M]. split.
+  - intro x. rewrite Hq. apply S.
+  - intros x Hz Hm. rewrite Hq in Hm. destruct (M x Hz Hm) as [[pc R] N]. split; [exists pc; now rewrite Hg|now rewrite Hd].
+Qed.
+Lemma good_emit s k i : GoodB s -> GoodB (emit s k i). Proof. now apply good_same. Qed.
+Lemma good_done s i d : GoodB s -> GoodB (set_done s i d). Proof. now apply good_same. Qed.
+
+Lemma good_gen s i g : GoodB s -> (mf (dq s i) \/ exists pc, g = GRun pc) -> GoodB (set_gen s i g).
+Proof.
+  intros [S M] Hi. split; [exact S|].
+  intros x Hz Hm. change (dq (set_gen s i g) x) with (dq s x) in Hm. destruct (M x Hz Hm) as [[pc R] N].
+  split; [|exact N]. destruct (N.eq_dec x i) as [Heq|Hne].
+  - subst x. destruct Hi as [Hi|[pc' ->]]; [contradiction|]. exists pc'. apply gen_set_gen_same.
+  - exists pc. now rewrite gen_set_gen_other.
+Qed.
+
+(* the deque of x is replaced by ds' *)
+Lemma good_sched s x c' :
+  srt ord (canon (deeds c')) ->
+  (x <> 0%N -> ~ mf (deeds c') -> running s x /\ isnest (defs s) x = true) ->
+  GoodB s -> GoodB (set_sched s x c').
+Proof.
+  intros Sx Mx [S M]. split.
+  - intro y. destruct (N.eq_dec y x) as [Heq|Hne]; [subst y; now rewrite dq_set_same|rewrite dq_set_other by exact Hne; apply S].
+  - intros y Hz Hm. destruct (N.eq_dec y x) as [Heq|Hne].
+    + subst y. rewrite dq_set_same in Hm. now apply Mx.
+    + rewrite dq_set_other in Hm by exact Hne. now apply M.
+Qed.
+Lemma good_deeds s x ds' :
+  srt ord (canon ds') ->
+  (x <> 0%N -> ~ mf ds' -> running s x /\ isnest (defs s) x = true) ->
+  GoodB s -> GoodB (set_deeds s x ds').
+Proof. intros. unfold set_deeds. now apply good_sched. Qed.
+
+Lemma mf_dec (ds : list (deed T)) : mf ds \/ ~ mf ds.
+Proof.
+  destruct (split_cases ds) as [M|(u & r & -> & _)]; [now left|right].
+  intro M. apply M. apply in_or_app. right. now left.
+Qed.
+
+Lemma good_del s x c' q : deeds c' = filter (keepf q) (dq s x) -> GoodB s -> GoodB (set_sched s x c').
+Proof.
+  intros E G. apply good_sched; [| |exact G].
+  - rewrite E, canon_keepf. apply srt_filter. apply (proj1 G).
+  - intros Hz Hm. apply (proj2 G x Hz). intro M. apply Hm. rewrite E. now apply mf_filter.
+Qed.
+
+Lemma srt_mid (q : id -> bool) l1 i l2 : srt ord (l1 ++ i :: l2) -> srt ord (filter q l1 ++ i :: filter q l2).
+Proof.
+  intro S. apply srt_app_iff in S. destruct S as (S1 & S2 & C).
+  inversion S2 as [|? ? S2' F2]; subst. apply srt_app_iff. split; [now apply srt_filter|]. split.
+  - constructor; [now apply srt_filter|]. rewrite Forall_forall in *. intros y Hy. apply filter_In in Hy. apply F2. tauto.
+  - intros x y Hx Hy. apply filter_In in Hx. apply C; [tauto|]. destruct Hy as [Hy|Hy]; [now left|right].
+    apply filter_In in Hy. tauto.
+Qed.
+
+Definition passok (r : @gres T) s (sid : id) : Prop :=
+  match r with GYield _ | GReturn => mf (dq s sid) | _ => True end.
+
+Definition srtb_at (f : nat) : Prop :=
+  (forall s i k sc pc s' r, XF (defs s) -> get (defs s) i = Some (FLeaf k sc) -> GoodB s ->
+       run_step tk f s i k sc pc = (s', r) -> oof s' = false -> GoodB s') /\
+  (forall s i s' r, XF (defs s) -> GoodB s -> gen_send tk f s i = (s', r) -> oof s' = false -> GoodB s') /\
+  (forall s i, XF (defs s) -> GoodB s -> oof (gen_close tk f s i) = false -> GoodB (gen_close tk f s i)) /\
+  (forall s sid, XF (defs s) -> GoodB s -> oof (close_own tk f s sid) = false -> GoodB (close_own tk f s sid)) /\
+  (forall s ds, XF (defs s) -> GoodB s -> oof (close_list tk f s ds) = false -> GoodB (close_list tk f s ds)) /\
+  (forall s c es s' r, XF (defs s) -> noext es -> GoodB s -> run_effects tk f s c es = (s', r) -> oof s' = false -> GoodB s') /\
+  (forall s sid s' r, XF (defs s) -> own' s sid -> mf (dq s sid) -> GoodB s ->
+       recur_pass tk f s sid = (s', r) -> oof s' = false -> GoodB s' /\ passok r s' sid) /\
+  (forall s sid s' r, XF (defs s) -> own' s sid -> form2 (dq s sid) -> GoodB s ->
+       recur_loop tk f s sid = (s', r) -> oof s' = false -> GoodB s' /\ passok r s' sid).
+
+Lemma leaf_mf s i k sc : GoodB s -> get (defs s) i = Some (FLeaf k sc) -> XF (defs s) -> mf (dq s i).
+Proof.
+  intros [_ M] D X. destruct (mf_dec (dq s i)) as [Y|Nm]; [exact Y|exfalso].
+  assert (Hz : i <> 0%N) by (intro Heq; subst i; rewrite (proj1 X) in D; discriminate).
+  destruct (M i Hz Nm) as [_ Nn]. unfold isnest in Nn. rewrite D in Nn. discriminate.
+Qed.
+
+Lemma susp_mf s i pc : GoodB s -> get_gen s i = GSusp pc -> i <> 0%N -> mf (dq s i).
+Proof.
+  intros [_ M] G Hz. destruct (mf_dec (dq s i)) as [Y|Nm]; [exact Y|exfalso].
+  destruct (M i Hz Nm) as [[pc' R] _]. congruence.
+Qed.
+
+Lemma own_keep' s s' sid : own' s sid -> prot s' sid -> defs s' = defs s -> own' s' sid.
+Proof. intros [_ N] P D. split; [exact P|]. intro Hz. rewrite D. now apply N. Qed.
+
+Lemma srtb_all : forall f, srtb_at f.
+Proof.
+  induction f as [|f IH].
+  - unfold srtb_at. repeat match goal with |- _ /\ _ => split end; intros;
+      try match goal with E : _ = (_, _) |- _ => cbn in E; inversion E; subst; clear E end;
+      match goal with O : oof _ = false |- _ => cbn in O; discriminate end.
+  - destruct IH as (Irs & Isd & Icl & Ico & Ili & Ief & Irp & Irl).
+    destruct (ob_all f) as (Brs & Bsd & Bcl & Bco & Bli & Bef & Brp & Brl).
+    assert (CloseEnd : forall s3 i, XF (defs s3) -> GoodB s3 ->
+              oof (set_gen (emit (close_own tk f s3 i) Exit i) i GDone) = false ->
+              GoodB (set_gen (emit (close_own tk f s3 i) Exit i) i GDone)).
+    { intros s3 i X3 G3 O. change (oof (close_own tk f s3 i) = false) in O.
+      apply good_gen; [apply good_emit; now apply Ico|]. left.
+      change (mf (dq (close_own tk f s3 i) i)). rewrite (close_own_empty tk f s3 i O). intros []. }
+    unfold srtb_at. repeat match goal with |- _ /\ _ => split end.
+    + (* run_step *)
+      intros s i k sc pc s' r X D G E O. rewrite run_step_S in E. cbv zeta in E.
+      destruct (run_effects tk f s i _) as [s1 r0] eqn:Ee.
+      assert (O1 : oof s1 = false).
+      { destruct r0; [| |destruct kbd|]; cbv beta iota zeta in E; try (destruct (f_out _)); fin; exact O. }
+      assert (G1 : GoodB s1) by (eapply Ief; [exact X|exact (proj2 X i k sc pc D)|exact G|exact Ee|exact O1]).
+      assert (D1 : get (defs s1) i = Some (FLeaf k sc)).
+      { destruct (defs_all tk f) as (_ & _ & _ & _ & K). now rewrite (K _ _ _ _ _ Ee). }
+      assert (X1 : XF (defs s1)).
+      { eapply xf_defs; [|exact X]. destruct (defs_all tk f) as (_ & _ & _ & _ & K). now rewrite (K _ _ _ _ _ Ee). }
+      assert (M1 : mf (dq s1 i)) by (eapply leaf_mf; eassumption).
+      destruct r0; [| |destruct kbd|]; cbv beta iota zeta in E; try (destruct (f_out _)); fin; try exact G1;
+        repeat first [exact G1 | apply good_done | apply good_emit | (apply good_gen; [|left; exact M1])].
+    + (* gen_send *)
+      intros s i s' r X G E O. rewrite gen_send_S in E.
+      destruct (get_gen s i) eqn:Gi; try (fin; exact G).
+      destruct (get (defs s) i) as [[k sc|t0 al kids]|] eqn:D; [| |fin; exact G].
+      * eapply Irs; [| | |exact E|exact O]; [exact X|exact D|].
+        apply good_emit. apply good_gen; [exact G|right; now exists pc].
+      * assert (Hz : i <> 0%N) by (intro Heq; subst i; rewrite (proj1 X) in D; discriminate).
+        assert (Mi : mf (dq s i)) by (eapply susp_mf; eassumption).
+        cbv zeta in E.
+        set (s1 := emit (set_gen s i (GRun pc)) Recur i) in *.
+        assert (G1 : GoodB s1) by (apply good_emit; apply good_gen; [exact G|right; now exists pc]).
+        assert (W1 : own' s1 i).
+        { split; [left; exists pc; apply gen_set_gen_same|]. intros _. unfold isnest. change (defs s1) with (defs s). now rewrite D. }
+        destruct (recur_pass tk f s1 i) as [s2 r0] eqn:Ee.
+        assert (X2 : XF (defs s2)).
+        { eapply xf_defs; [|exact X]. destruct (frame_all tk f) as (_ & _ & _ & _ & _ & _ & _ & _ & _ & Frp & _).
+          apply (steps_defs s1). eapply Frp; [apply st_refl|exact Ee]. }
+        destruct r0; cbv beta iota zeta in E.
+        -- match type of E with (if ?c then _ else _) = _ => destruct c end; fin.
+           ++ assert (O2 : oof s2 = false) by (change (oof (close_own tk f (emit (set_done s2 i (Some true)) Clean i) i) = false) in O || idtac; eapply Bco in O; exact O).
+              destruct (Irp s1 i s2 _ X W1 Mi G1 Ee O2) as [G2 _].
+              apply CloseEnd; [exact X2|apply good_emit, good_done; exact G2|exact O].
+           ++ destruct (Irp s1 i s2 _ X W1 Mi G1 Ee O) as [G2 P2].
+              apply good_gen; [apply good_done; exact G2|left; exact P2].
+        -- match type of E with (if ?c then _ else _) = _ => destruct c end; fin.
+           ++ assert (O2 : oof s2 = false) by (eapply Bco in O; exact O).
+              destruct (Irp s1 i s2 _ X W1 Mi G1 Ee O2) as [G2 _].
+              apply CloseEnd; [exact X2|apply good_emit, good_done; exact G2|exact O].
+           ++ destruct (Irp s1 i s2 _ X W1 Mi G1 Ee O) as [G2 P2].
+              apply good_gen; [apply good_done; exact G2|left; exact P2].
+        -- fin. assert (O2 : oof s2 = false) by (eapply Bco in O; destruct kbd; exact O).
+           destruct (Irp s1 i s2 _ X W1 Mi G1 Ee O2) as [G2 _].
+           apply CloseEnd; [destruct kbd; exact X2| destruct kbd; [exact G2|apply good_emit; exact G2]|exact O].
+        -- fin. destruct (fuel_all tk f) as (_ & _ & _ & _ & _ & _ & K & _). rewrite (K _ _ _ Ee) in O. discriminate.
+    + (* gen_close *)
+      intros s i X G O. rewrite gen_close_S in *. destruct (get_gen s i) eqn:Gi; try exact G.
+      destruct (get (defs s) i) as [[k sc|t0 al kids]|] eqn:D; [| |exact G].
+      * assert (M1 : mf (dq s i)) by (eapply leaf_mf; eassumption).
+        apply good_gen; [apply good_emit, good_emit; apply good_gen; [exact G|right; now exists pc]|left; exact M1].
+      * cbv zeta in *. apply CloseEnd; [exact X| |exact O].
+        apply good_emit. apply good_gen; [exact G|right; now exists pc].
+    + (* close_own *)
+      intros s sid X G O. rewrite close_own_S in *. cbv zeta in *. apply Ili; [exact X| |exact O].
+      apply good_deeds; [constructor|intros _ Nm; exfalso; apply Nm; intros []|exact G].
+    + (* close_list *)
+      intros s ds X G O. rewrite close_list_S in *. destruct ds as [|[|i re] r]; [exact G|now apply Ili|].
+      assert (O1 : oof (gen_close tk f s i) = false) by (eapply Bli; exact O).
+      apply Ili; [|now apply Icl|exact O].
+      eapply xf_defs; [|exact X]. destruct (frame_all tk f) as (_ & _ & _ & Fcl & _). apply (steps_defs s). apply Fcl, st_refl.
+    + (* run_effects *)
+      intros s c es s' r X Ne G E O. rewrite run_effects_S in E.
+      destruct es as [|e rest]; [fin; exact G|].
+      inversion Ne as [|e0 rest0 He Hrest]; subst.
+      destruct (negb (live s match e with EExtend t _ => t | ERemove t _ => t end)); [eapply Ief; eassumption|].
+      destruct e as [t news|t who]; [contradiction|]. cbv zeta in E.
+      match type of E with run_effects tk f (emit (close_list tk f ?s1 ?l) RemRet c) c rest = _ =>
+        assert (O2 : oof (close_list tk f s1 l) = false) by exact (Bef _ _ _ _ _ E O);
+        assert (G1 : GoodB s1) by (eapply good_del; [|exact G]; cbn [deeds];
+                                   apply filter_ext; intros [|i re]; reflexivity);
+        assert (X2 : XF (defs (close_list tk f s1 l)))
+          by (eapply xf_defs; [|exact X]; destruct (defs_all tk f) as (_ & _ & K & _); now rewrite K);
+        eapply Ief; [| | |exact E|exact O]; [exact X2|exact Hrest|];
+        apply good_emit; apply Ili; [exact X|exact G1|exact O2]
+      end.
+    + (* recur_pass *)
+      intros s sid s' r X W M G E O. rewrite recur_pass_S in E. cbv zeta in E.
+      eapply Irl; [| | | |exact E|exact O].
+      * exact X.
+      * destruct W as [P N]. split; [apply (prot_same s); [reflexivity|reflexivity|exact P]|exact N].
+      * exists (dq s sid), []. split; [now rewrite dq_deeds_same|]. split; [exact M|intros []].
+      * apply good_deeds; [| |exact G].
+        -- change (deeds (get_sched s sid)) with (dq s sid). rewrite (canon_mark _ [] M). cbn [dids flat_map app].
+           rewrite <- (canon_mf _ M). apply (proj1 G).
+        -- intros Hz _. destruct W as [[R|[Hz' _]] N]; [split; [exact R|now apply N]|contradiction].
+    + (* recur_loop *)
+      intros s sid s' r X W (u & rr & Q & Mu & Mr) G E O. rewrite recur_loop_S in E.
+      change (deeds (get_sched s sid)) with (dq s sid) in E. rewrite Q in E.
+      assert (Sx : srt ord (dids rr ++ dids u)) by (rewrite <- (canon_mark u rr Mu), <- Q; apply (proj1 G)).
+      assert (Wx : forall s0, (forall x, get_gen s0 x = get_gen s x) -> defs s0 = defs s -> own' s0 sid).
+      { intros s0 Hg Hd. destruct W as [P N]. split; [now apply (prot_same s)|]. intro Hz. rewrite Hd. now apply N. }
+      assert (Mk : forall s0 (l : list (deed T)), (forall x, get_gen s0 x = get_gen s x) -> defs s0 = defs s ->
+                   sid <> 0%N -> ~ mf l -> running s0 sid /\ isnest (defs s0) sid = true).
+      { intros s0 l Hg Hd Hz _. destruct (Wx s0 Hg Hd) as [[R|[Hz' _]] N]; [split; [exact R|now apply N]|contradiction]. }
+      destruct u as [|[|i re] u']; cbn [app] in E.
+      * (* marker reached *)
+        fin. split.
+        -- apply good_deeds; [|intros Hz Nm; contradiction|exact G]. rewrite (canon_mf _ Mr).
+           rewrite app_nil_r in Sx. exact Sx.
+        -- cbn [passok]. now rewrite dq_deeds_same.
+      * exfalso. apply Mu. now left.
+      * (* a deed *)
+        cbv zeta in E.
+        assert (Mu' : mf u') by (intro Hin; apply Mu; now right).
+        change (dids (DDeed i re :: u')) with (i :: dids u') in Sx.
+        set (s1 := set_deeds s sid (u' ++ DMark :: rr)) in *.
+        assert (G1 : GoodB s1).
+        { apply good_deeds; [|now apply (Mk s)|exact G]. rewrite (canon_mark _ _ Mu').
+          apply srt_app_iff in Sx. destruct Sx as (S1 & S2 & C). inversion S2; subst.
+          apply srt_app_iff. split; [exact S1|]. split; [assumption|]. intros x y Hx Hy. apply C; [exact Hx|now right]. }
+        assert (W1 : own' s1 sid) by (apply Wx; reflexivity).
+        destruct (tleb re (tyme s1)).
+        -- destruct (gen_send tk f s1 i) as [s2 g] eqn:Eg.
+           assert (O2 : oof s2 = false).
+           { destruct g; fin; try exact O; exact (Brl _ _ _ _ E O). }
+           assert (G2 : GoodB s2) by (eapply Isd; [| |exact Eg|exact O2]; [exact X|exact G1]).
+           assert (Dd : defs s2 = defs s1) by (destruct (defs_all tk f) as (_ & K & _); eapply K; exact Eg).
+           assert (X2 : XF (defs s2)) by (eapply xf_defs; [exact Dd|exact X]).
+           assert (P2 : prot s2 sid).
+           { destruct (prot_all f sid) as (_ & K & _). eapply K; [exact (proj1 W1)|exact Eg]. }
+           assert (W2 : own' s2 sid) by (eapply own_keep'; [exact W1|exact P2|exact Dd]).
+           destruct (del_all sid f) as (_ & Dsd & _).
+           destruct (Dsd s1 s1 i s2 g X (proj1 W1) (delq_refl _) Eg) as [q Eq].
+           unfold s1 in Eq. rewrite dq_deeds_same, filter_app in Eq. cbn [filter keepf] in Eq.
+           destruct g; fin.
+           ++ match type of E with recur_loop tk f (set_deeds s2 sid (_ ++ [?d])) sid = _ =>
+                eapply (Irl (set_deeds s2 sid (dq s2 sid ++ [d]))); [| | | |exact E|exact O] end.
+              ** exact X2.
+              ** destruct W2 as [P N]. split; [apply (prot_same s2); [reflexivity|reflexivity|exact P]|exact N].
+              ** eexists _, _. split; [rewrite dq_deeds_same, Eq, <- app_assoc; cbn [app]; reflexivity|].
+                 split; [now apply mf_filter|]. apply mf_app. split; [now apply mf_filter|intros [Hx|[]]; discriminate].
+              ** apply good_deeds; [| |exact G2].
+                 --- rewrite Eq, <- app_assoc. cbn [app]. rewrite (canon_mark _ _ (mf_filter q u' Mu')).
+                     rewrite dids_app, !dids_keepf. cbn [dids flat_map app]. rewrite <- app_assoc. cbn [app].
+                     now apply srt_mid.
+                 --- intros Hz _. destruct W2 as [[R|[Hz' _]] N]; [split; [exact R|now apply N]|contradiction].
+           ++ eapply (Irl s2); [exact X2|exact W2| |exact G2|exact E|exact O].
+              eexists _, _. split; [exact Eq|]. split; now apply mf_filter.
+           ++ split; [exact G2|exact Logic.I].
+           ++ split; [exact G2|exact Logic.I].
+        -- eapply (Irl (set_deeds s1 sid ((u' ++ DMark :: rr) ++ [DDeed i re]))); [| | | |exact E|exact O].
+           ++ exact X.
+           ++ apply Wx; reflexivity.
+           ++ eexists u', (rr ++ [DDeed i re]). split; [rewrite dq_deeds_same, <- app_assoc; reflexivity|].
+              split; [exact Mu'|]. apply mf_app. split; [exact Mr|intros [Hx|[]]; discriminate].
+           ++ apply good_deeds; [|now apply (Mk s1)|exact G1].
+              rewrite <- app_assoc. cbn [app]. rewrite (canon_mark _ _ Mu'), dids_app. cbn [dids flat_map app].
+              rewrite <- app_assoc. exact Sx.
+Qed.
+
 End SortB.
